@@ -37,7 +37,12 @@ def mk(seq, share=False):
             out.append(first[(n, v)])
             continue
         # (some dependencies are bare markers: no script, stylesheet, meta or head - they resolve like any other)
-        d = ht.HTMLDependency(n, v, script={"src": "f%d.js" % i}) if i % 3 else (ht.HTMLDependency(n, v, all_files=bool(i % 2)) if i % 2 else ht.HTMLDependency(n, v))
+        if i % 5 == 4:
+            from packaging.version import Version
+            d = gen.SubDep(n, Version(v), script={"src": "f%d.js" % i})   # a subclass instance, version given as an object
+        else:
+            d = ht.HTMLDependency(n, v, script={"src": "f%d.js" % i}) if i % 3 else (ht.HTMLDependency(n, v, all_files=bool(i % 2)) if i % 2 else ht.HTMLDependency(n, v))
+            
         first.setdefault((n, v), d)
         out.append(d)
     return out
